@@ -1,0 +1,26 @@
+//go:build verif
+
+/*
+SPDX-License-Identifier: Apache-2.0
+*/
+
+package verifiable
+
+// CheckEmbeddedProofVerif runs exactly the embedded-proof stage of ParseCredential (checkEmbeddedProof with the options
+// ParseCredential derives from opts) on docBytes and nothing else: no decoding into the data model, no validation.
+func CheckEmbeddedProofVerif(docBytes []byte, opts ...CredentialOpt) error {
+	return checkEmbeddedProof(docBytes, getEmbeddedProofCheckOpts(getCredentialOpts(opts)))
+}
+
+// CheckPresEmbeddedProofVerif is the same for ParsePresentation (the options as decodeRawPresentation maps them).
+func CheckPresEmbeddedProofVerif(docBytes []byte, opts ...PresentationOpt) error {
+	vpOpts := getPresentationOpts(opts)
+
+	return checkEmbeddedProof(docBytes, &embeddedProofCheckOpts{
+		dataIntegrityOpts:    vpOpts.verifyDataIntegrity,
+		publicKeyFetcher:     vpOpts.publicKeyFetcher,
+		disabledProofCheck:   vpOpts.disabledProofCheck,
+		ldpSuites:            vpOpts.ldpSuites,
+		jsonldCredentialOpts: vpOpts.jsonldCredentialOpts,
+	})
+}
